@@ -1,1 +1,155 @@
-//! stub
+//! SimDevice: in-memory `phy::Device` owned by the explorer. Records every buffer handed to
+//! `TxToken::consume`, can refuse `transmit()` (back-pressure), configurable MTU / checksum
+//! capabilities / burst size. Plus small helpers shared by the network harnesses.
+
+use smoltcp::phy::{self, ChecksumCapabilities, Device, DeviceCapabilities, Medium};
+use smoltcp::time::Instant;
+use std::collections::VecDeque;
+
+pub struct SimDevice {
+    pub medium: Medium,
+    pub mtu: usize,
+    pub checksum: ChecksumCapabilities,
+    pub max_burst: Option<usize>,
+    pub rx: VecDeque<Vec<u8>>,
+    /// frames handed to the device, with the timestamp smoltcp passed to transmit/receive
+    pub tx: Vec<(i64, Vec<u8>)>,
+    /// None = unlimited; Some(n) = at most n more successful `transmit()` calls
+    pub tx_budget: Option<usize>,
+    /// counts how many times transmit() was refused
+    pub refused: usize,
+}
+
+impl SimDevice {
+    pub fn new(medium: Medium, mtu: usize) -> SimDevice {
+        SimDevice {
+            medium,
+            mtu,
+            checksum: ChecksumCapabilities::default(),
+            max_burst: None,
+            rx: VecDeque::new(),
+            tx: Vec::new(),
+            tx_budget: None,
+            refused: 0,
+        }
+    }
+    pub fn take_tx(&mut self) -> Vec<(i64, Vec<u8>)> {
+        std::mem::take(&mut self.tx)
+    }
+}
+
+pub struct SimRx(Vec<u8>);
+pub struct SimTx<'a> {
+    tx: &'a mut Vec<(i64, Vec<u8>)>,
+    ts: i64,
+}
+
+impl phy::RxToken for SimRx {
+    fn consume<R, F>(self, f: F) -> R
+    where
+        F: FnOnce(&[u8]) -> R,
+    {
+        f(&self.0)
+    }
+}
+impl<'a> phy::TxToken for SimTx<'a> {
+    fn consume<R, F>(self, len: usize, f: F) -> R
+    where
+        F: FnOnce(&mut [u8]) -> R,
+    {
+        let mut buf = vec![0u8; len];
+        let r = f(&mut buf);
+        self.tx.push((self.ts, buf));
+        r
+    }
+}
+
+impl Device for SimDevice {
+    type RxToken<'a> = SimRx;
+    type TxToken<'a> = SimTx<'a>;
+    fn capabilities(&self) -> DeviceCapabilities {
+        let mut c = DeviceCapabilities::default();
+        c.medium = self.medium;
+        c.max_transmission_unit = self.mtu;
+        c.max_burst_size = self.max_burst;
+        c.checksum = self.checksum.clone();
+        c
+    }
+    fn receive(&mut self, ts: Instant) -> Option<(SimRx, SimTx<'_>)> {
+        let f = self.rx.pop_front()?;
+        Some((SimRx(f), SimTx { tx: &mut self.tx, ts: ts.total_micros() }))
+    }
+    fn transmit(&mut self, ts: Instant) -> Option<SimTx<'_>> {
+        match self.tx_budget {
+            Some(0) => {
+                self.refused += 1;
+                None
+            }
+            Some(ref mut n) => {
+                *n -= 1;
+                Some(SimTx { tx: &mut self.tx, ts: ts.total_micros() })
+            }
+            None => Some(SimTx { tx: &mut self.tx, ts: ts.total_micros() }),
+        }
+    }
+}
+
+// ---------------------------------------------------------------------------------------
+// sPCG32 inversion: choose the n-th PRNG output through Config::random_seed
+// ---------------------------------------------------------------------------------------
+
+const PCG_M: u64 = 0xbb2efcec3c39611d;
+const PCG_A: u64 = 0x7590ef39;
+
+fn modinv(a: u64) -> u64 {
+    // Newton iteration for the inverse of an odd number modulo 2^64
+    let mut x = a;
+    for _ in 0..6 {
+        x = x.wrapping_mul(2u64.wrapping_sub(a.wrapping_mul(x)));
+    }
+    x
+}
+fn pcg_out(s: u64) -> u32 {
+    (s >> (29 - (s >> 61))) as u32
+}
+fn pcg_step(s: u64) -> u64 {
+    s.wrapping_mul(PCG_M).wrapping_add(PCG_A)
+}
+
+/// Returns a seed such that the `draw`-th (1-based) call of rand_u32 returns `want`,
+/// assuming the earlier draws do not loop (Interface::new retries on zero values; the
+/// caller verifies the result on the wire and tries the next `salt` otherwise).
+pub fn seed_for_nth_output(want: u32, draw: u32, salt: u64) -> u64 {
+    // rand_u32: state = state*M + A ; output computed from the NEW state.
+    // choose new state s with (s >> (29 - (s>>61))) as u32 == want; take top3 = 0 => shift 29
+    let top3 = 0u64;
+    let s = (top3 << 61) | ((want as u64) << 29) | (salt & ((1 << 29) - 1));
+    debug_assert_eq!(pcg_out(s), want);
+    let minv = modinv(PCG_M);
+    let mut st = s;
+    for _ in 0..draw {
+        st = st.wrapping_sub(PCG_A).wrapping_mul(minv);
+    }
+    // sanity: forward
+    let mut f = st;
+    for _ in 0..draw {
+        f = pcg_step(f);
+    }
+    debug_assert_eq!(f, s);
+    st
+}
+
+pub fn hex(b: &[u8]) -> String {
+    let mut s = String::with_capacity(b.len() * 2);
+    for x in b {
+        s.push_str(&format!("{:02x}", x));
+    }
+    s
+}
+pub fn unhex(s: &str) -> Vec<u8> {
+    let s: Vec<u8> = s.bytes().filter(|c| c.is_ascii_hexdigit()).collect();
+    s.chunks(2)
+        .filter(|c| c.len() == 2)
+        .map(|c| u8::from_str_radix(std::str::from_utf8(c).unwrap(), 16).unwrap())
+        .collect()
+}
